@@ -358,6 +358,10 @@ def _get_or_make_region(
         else:
           line_offset = 100 * line_num/_DEFAULT_COLS if line_num >= 0 else 100 + 100 * line_num/_DEFAULT_COLS
 
+        # a line number beyond the grid designates its nearest edge
+
+        line_offset = min(max(line_offset, 0), 100)
+
     if line_offset is not None:
       if line_align == "center":
         if writing_mode in (styles.WritingModeType.rltb, styles.WritingModeType.lrtb):
